@@ -207,6 +207,15 @@ func cleanup(e *env) {
 	for _, x := range es {
 		if !x.IsDir() {
 			_ = os.Remove(filepath.Join(e.dir, x.Name()))
+			continue
+		}
+		// files that cases created below the sandbox's few fixed sub-directories (reached through dot
+		// segments) go as well: the directory walk of later cases must not grow with the run
+		sub, _ := os.ReadDir(filepath.Join(e.dir, x.Name()))
+		for _, y := range sub {
+			if !y.IsDir() {
+				_ = os.Remove(filepath.Join(e.dir, x.Name(), y.Name()))
+			}
 		}
 	}
 }
